@@ -67,6 +67,17 @@ def run_case(case, ctx):
         ctx.fail("grammar-rejected", text=text, error=repr(e))
     start_prod = 1 if start == "main" else grammar.get_production_id("LAYOUT")
     B = table_budget(ref.work)
+    if case.get("warm") and case.get("lg"):
+        # what Parser() does: two tables (layout, then main) are built from one Grammar object; whatever
+        # the first construction leaves on the grammar must not leak into the second
+        other = grammar.get_production_id("LAYOUT") if start == "main" else 1
+        try:
+            with budget.steps(max(B, 3000000)):
+                pgl.create_table(grammar, pgl.ITEMSETS[case.get("warm_table", kind)], other, False, False)
+            ctx.label("table-for-the-other-start-production-built-first")
+        except (budget.StepBudgetExceeded, Exception):
+            grammar = pgl.Grammar.from_string(text)
+            start_prod = 1 if start == "main" else grammar.get_production_id("LAYOUT")
     try:
         with budget.steps(B) as s:
             table = pgl.create_table(grammar, pgl.ITEMSETS[kind], start_prod, False, False)
@@ -189,7 +200,8 @@ def _cases(gstrat):
         if start == "layout" or draw(st.integers(0, 4)) == 0:
             lg = layout_variant(draw(gen.cfgs(max_nts=3, max_alts=3, max_rhs=3)))
         table = draw(st.sampled_from(["LALR", "SLR"]))
-        return {"g": g, "lg": lg, "table": table, "start": start}
+        return {"g": g, "lg": lg, "table": table, "start": start, "warm": draw(st.booleans()),
+                "warm_table": draw(st.sampled_from(["LALR", "SLR", "SLR"]))}
     return c()
 
 
@@ -236,6 +248,11 @@ def enum_classics(tier):
                 yield {"g": g, "lg": None, "table": table, "start": "main"}
                 yield {"g": gen.CLASSICS["sss"], "lg": layout_variant(g), "table": table,
                        "start": "layout"}
+                # both tables from one Grammar object, in both orders
+                yield {"g": gen.CLASSICS["sss"], "lg": layout_variant(g), "table": table, "start": "layout",
+                       "warm": True, "warm_table": table}
+                yield {"g": g, "lg": layout_variant(gen.CLASSICS["sss"]), "table": table, "start": "main",
+                       "warm": True, "warm_table": table}
     return it()
 
 
